@@ -273,6 +273,9 @@ func analyse(meta *propMeta, cfg LoadConfig) (rep *Report, p *Prog, err error) {
 	for _, extra := range round9Rules[meta.ID] {
 		extra(p, rep)
 	}
+	for _, extra := range round10Rules[meta.ID] {
+		extra(p, rep)
+	}
 	if registry[meta.ID] != nil {
 		anchoredGeneralRules(p, rep, meta.ID)
 		crossPropertyRules(p, rep, meta.ID)
